@@ -1,2 +1,371 @@
-//! C13 workload (under construction).
-fn main() {}
+//! C13 — pow (value and overflow flag), integer logarithms (incl. widths where
+//! 2 or 10 do not fit) and integer roots (value and bounded termination).
+
+use num_bigint::BigUint;
+use num_traits::{One, Zero};
+use ruint::Uint;
+use vmon::{an, au, big, gen, rng::Rng, uint, Arg, Mon};
+
+vmon::widths!(exec; 0, 1, 2, 3, 4, 7, 8, 31, 32, 60, 63, 64, 65, 100, 127, 128, 129, 192, 193,
+    250, 255, 256, 257, 320, 384, 512, 521, 1024, 2048);
+
+/// Does a^e reach 2^bits? Decided by bit-length bounds, exact power otherwise.
+fn pow_overflows(a: &BigUint, e: &BigUint, bits: usize) -> bool {
+    if e.is_zero() {
+        return bits == 0; // a^0 = 1
+    }
+    if a.is_zero() {
+        return false;
+    }
+    if a.is_one() {
+        return bits == 0;
+    }
+    // a >= 2
+    let bl = a.bits() as usize;
+    if e.bits() > 40 {
+        return true; // exponent beyond 2^40 with a >= 2
+    }
+    let ev = e.iter_u64_digits().next().unwrap_or(0) as usize;
+    if (bl - 1).saturating_mul(ev) >= bits {
+        return true;
+    }
+    // now bl * ev < bits + ev <= 2 * bits: exact power is cheap
+    !big::fits(&a.pow(ev as u32), bits)
+}
+
+fn exec<const B: usize, const L: usize>(m: &mut Mon, op: &str, a: &[Arg]) {
+    let two = BigUint::from(2u8);
+    match op {
+        "pow" => {
+            let (x, e): (Uint<B, L>, Uint<B, L>) = (uint(a[0].u()), uint(a[1].u()));
+            let (bx, be) = (big::big(a[0].u()), big::big(a[1].u()));
+            m.nontrivial(bx >= two && be >= two);
+            let w = if B == 0 { vec![] } else { big::limbs(&bx.modpow(&be, &big::p2(B)), L) };
+            let ovf = if B == 0 { false } else { pow_overflows(&bx, &be, B) };
+            m.obs(|| format!("wrapped={} overflow={ovf}", big::hex(&w)));
+            if let Some(v) = m.must_in("pow", || x.pow(e)) {
+                m.eq_uint("pow", &v, &w);
+            }
+            if let Some(v) = m.must_in("wrapping_pow", || x.wrapping_pow(e)) {
+                m.eq_uint("wrapping_pow", &v, &w);
+            }
+            if let Some((v, f)) = m.must_in("overflowing_pow", || x.overflowing_pow(e)) {
+                m.eq_uint("overflowing_pow.value", &v, &w);
+                m.eq("overflowing_pow.flag", &f, &ovf);
+            }
+            if let Some(v) = m.must_in("checked_pow", || x.checked_pow(e)) {
+                match v {
+                    Some(v) => {
+                        if m.eq("checked_pow.some", &true, &!ovf) {
+                            m.eq_uint("checked_pow.value", &v, &w);
+                        }
+                    }
+                    None => {
+                        m.eq("checked_pow.none", &true, &ovf);
+                    }
+                }
+            }
+            if let Some(v) = m.must_in("saturating_pow", || x.saturating_pow(e)) {
+                m.eq_uint("saturating_pow", &v, &if ovf { gen::max(B) } else { w.clone() });
+            }
+        }
+        "log" => {
+            let (x, base): (Uint<B, L>, Uint<B, L>) = (uint(a[0].u()), uint(a[1].u()));
+            let (bv, bb) = (big::big(a[0].u()), big::big(a[1].u()));
+            let defined = !bv.is_zero() && bb >= two;
+            m.nontrivial(bv >= two && bb >= two);
+            let judge = |m: &mut Mon, kind: &str, e: usize| {
+                // e = floor(log_b v)  <=>  b^e <= v < b^(e+1)
+                if e > B + 1 {
+                    m.fail(kind, "a logarithm below BITS", &format!("{e}"));
+                    return;
+                }
+                let lo = bb.pow(e as u32);
+                let ok = lo <= bv && &lo * &bb > bv;
+                m.check(ok, kind, || format!("floor(log_{}({}))", big::bhex(&bb), big::bhex(&bv)), || format!("{e}"));
+            };
+            if let Some(r) = m.must_in("checked_log", || x.checked_log(base)) {
+                match r {
+                    Some(e) => {
+                        if m.eq("checked_log.some", &true, &defined) {
+                            judge(m, "checked_log.value", e);
+                            m.obs(|| format!("log={e}"));
+                        }
+                    }
+                    None => {
+                        m.eq("checked_log.none", &true, &!defined);
+                    }
+                }
+            }
+            if defined {
+                if let Some(e) = m.must_in("log", || x.log(base)) {
+                    judge(m, "log.value", e);
+                }
+            } else {
+                m.must_panic(|| x.log(base), "value 0 or base < 2");
+            }
+        }
+        "log2_10" => {
+            let x: Uint<B, L> = uint(a[0].u());
+            let bv = big::big(a[0].u());
+            m.nontrivial(bv >= two);
+            let defined = !bv.is_zero();
+            let e2 = if defined { bv.bits() as usize - 1 } else { 0 };
+            let e10 = if defined { bv.to_str_radix(10).len() - 1 } else { 0 };
+            m.obs(|| format!("log2={e2} log10={e10}"));
+            if let Some(r) = m.must_in("checked_log2", || x.checked_log2()) {
+                m.eq("checked_log2", &r, &if defined { Some(e2) } else { None });
+            }
+            if let Some(r) = m.must_in("checked_log10", || x.checked_log10()) {
+                m.eq("checked_log10", &r, &if defined { Some(e10) } else { None });
+            }
+            if defined {
+                if let Some(r) = m.must_in("log2", || x.log2()) {
+                    m.eq("log2", &r, &e2);
+                }
+                if let Some(r) = m.must_in("log10", || x.log10()) {
+                    m.eq("log10", &r, &e10);
+                }
+            } else {
+                m.must_panic(|| x.log2(), "value 0");
+                m.must_panic(|| x.log10(), "value 0");
+            }
+        }
+        "root" => {
+            let x: Uint<B, L> = uint(a[0].u());
+            let bv = big::big(a[0].u());
+            let d = a[1].us();
+            m.nontrivial(bv >= two && d >= 2);
+            if d == 0 {
+                m.must_panic(|| x.root(d), "degree 0");
+                return;
+            }
+            if let Some(v) = m.must_in("root", || x.root(d)) {
+                m.canonical(&v);
+                let r = big::big(v.as_limbs());
+                // r = floor(v^(1/d))  <=>  r^d <= v < (r+1)^d
+                let ok = if r.bits() as usize * d > B + d + 64 { false } else { r.pow(d as u32) <= bv && (&r + 1u8).pow(d as u32) > bv };
+                m.check(ok, "root.value", || format!("floor({}^(1/{d}))", big::bhex(&bv)), || big::bhex(&r));
+                m.obs(|| format!("root={}", big::bhex(&r)));
+            }
+        }
+        _ => panic!("harness: unknown op {op}"),
+    }
+}
+
+/// Bases for pow / log: 0, 1, 2, 3, 10, MAX, 2^k, 2^k +- 1, alphabet.
+fn base(r: &mut Rng, bits: usize) -> Vec<u64> {
+    match r.below(12) {
+        0 => gen::small(r.below(4) as u64, bits),
+        1 => gen::small(10, bits),
+        2 => gen::max(bits),
+        3 => gen::pow2(r.below(bits.max(1)), bits),
+        4 => {
+            let mut v = gen::pow2(r.below(bits.max(1)), bits);
+            if !v.is_empty() {
+                v[0] |= 1;
+            }
+            v
+        }
+        5 => gen::ones(r.range(1, bits.max(1)), bits),
+        6 => gen::small(gen::alpha_limb(r), bits),
+        7 => gen::small(2 + r.below(40) as u64, bits),
+        8 => {
+            let n = r.range(1, bits.max(1)).min(70);
+            gen::with_bit_len(r, n, bits)
+        }
+        _ => gen::hostile(r, bits),
+    }
+}
+
+fn fit(v: &BigUint, bits: usize) -> Option<Vec<u64>> {
+    if big::fits(v, bits) {
+        Some(big::limbs(v, gen::nlimbs(bits)))
+    } else {
+        None
+    }
+}
+
+fn workload(m: &mut Mon, bits: usize) {
+    if bits <= 4 {
+        for a in 0..(1u64 << bits) {
+            m.case("log2_10", bits, vec![au(&gen::small(a, bits))]);
+            for b in 0..(1u64 << bits) {
+                if !m.keep() {
+                    continue;
+                }
+                m.case("pow", bits, vec![au(&gen::small(a, bits)), au(&gen::small(b, bits))]);
+                m.case("log", bits, vec![au(&gen::small(a, bits)), au(&gen::small(b, bits))]);
+            }
+            for d in 0..=bits + 2 {
+                m.case("root", bits, vec![au(&gen::small(a, bits)), an(d)]);
+            }
+        }
+        if !m.is_light() {
+            m.mark_exhaustive(format!("all (base, exponent), (value, base), (value, degree 0..=BITS+2) at BITS={bits}"));
+        }
+    }
+    if bits == 0 {
+        return;
+    }
+    let l = gen::nlimbs(bits);
+    let bd = gen::boundary(bits);
+    let mut r = m.stream("c13.directed", bits);
+    // ---- pow: exponents around floor(BITS / log2 b), 0, 1, full width
+    for _ in 0..m.iters(if bits <= 512 { 400 } else { 120 }) {
+        if !m.keep() {
+            continue;
+        }
+        let b = base(&mut r, bits);
+        let bb = big::big(&b);
+        let bl = (bb.bits() as usize).max(1);
+        let crit = bits / bl.saturating_sub(1).max(1);
+        let crit2 = bits / bl;
+        for e in [0usize, 1, 2, 3, crit.saturating_sub(1), crit, crit + 1, crit2.saturating_sub(1), crit2, crit2 + 1, bits - 1, bits, bits + 1] {
+            m.case("pow", bits, vec![au(&b), au(&gen::small(e as u64, bits))]);
+        }
+        m.case("pow", bits, vec![au(&b), au(&gen::hostile(&mut r, bits))]);
+        m.case("pow", bits, vec![au(&b), au(&gen::max(bits))]);
+        m.case("pow", bits, vec![au(&b), au(&gen::pow2(r.below(bits), bits))]);
+    }
+    // ---- log: perfect powers b^e and neighbours, boundary values, every small base
+    for _ in 0..m.iters(if bits <= 512 { 300 } else { 80 }) {
+        if !m.keep() {
+            continue;
+        }
+        let b = base(&mut r, bits);
+        let bb = big::big(&b);
+        m.case("log", bits, vec![au(&r.pick(&bd)[..]), au(&b)]);
+        m.case("log", bits, vec![au(&gen::hostile(&mut r, bits)), au(&b)]);
+        if bb >= BigUint::from(2u8) {
+            let emax = (bits as f64 / (bb.bits() as f64 - 0.99)).ceil() as usize + 1;
+            let e = r.range(0, emax.min(4 * bits));
+            let p = bb.pow(e as u32);
+            for d in [-1i32, 0, 1] {
+                let v = if d < 0 { if p.is_zero() { p.clone() } else { &p - 1u8 } } else { &p + d as u32 };
+                if let Some(v) = fit(&v, bits) {
+                    m.case("log", bits, vec![au(&v), au(&b)]);
+                }
+            }
+        }
+    }
+    for v in &bd {
+        if !m.keep() {
+            continue;
+        }
+        m.case("log2_10", bits, vec![au(v)]);
+        for b in [0u64, 1, 2, 3, 10, 16, 255, 256] {
+            m.case("log", bits, vec![au(v), au(&gen::small(b, bits))]);
+        }
+        m.case("log", bits, vec![au(v), au(&gen::max(bits))]);
+        m.case("log", bits, vec![au(v), au(v)]);
+    }
+    // powers of ten and neighbours for log10
+    let mut p = BigUint::one();
+    while big::fits(&p, bits) {
+        for d in [-1i32, 0, 1] {
+            let v = if d < 0 { if p.is_one() { BigUint::zero() } else { &p - 1u8 } } else { &p + d as u32 };
+            if let Some(v) = fit(&v, bits) {
+                m.case("log2_10", bits, vec![au(&v)]);
+            }
+        }
+        p *= 10u8;
+        if bits > 1024 && r.chance(2, 3) {
+            p *= 10u8;
+        }
+    }
+    // ---- root: every degree 0..=BITS+2 on boundary-ish values, perfect powers k^d and neighbours
+    let degrees: Vec<usize> = if bits <= 257 { (0..=bits + 2).collect() } else {
+        let mut d: Vec<usize> = (0..=40).collect();
+        d.extend([63, 64, 65, 100, 127, 128, 129, 196, 255, 256, 257, bits / 2, bits - 1, bits, bits + 1, bits + 2]);
+        d.sort_unstable();
+        d.dedup();
+        d
+    };
+    let root_values: Vec<Vec<u64>> = vec![gen::max(bits), gen::pow2(bits - 1, bits), gen::ones(bits / 2 + 1, bits), gen::small(2, bits),
+                                          gen::alphabet(&mut r, bits), gen::uniform(&mut r, bits)];
+    for &d in &degrees {
+        if !m.keep() {
+            continue;
+        }
+        for v in &root_values {
+            m.case("root", bits, vec![au(v), an(d)]);
+        }
+        if d >= 1 && d <= 4 * bits {
+            for _ in 0..m.iters(2) {
+                // k^d and neighbours, k chosen so that k^d has about `bits` bits
+                let kb = (bits / d).max(1);
+                let kbl = r.range(1, kb).min(kb);
+                let k = big::big(&gen::with_bit_len(&mut r, kbl, kb.max(1)));
+                let p = k.pow(d as u32);
+                for dd in [-1i32, 0, 1] {
+                    let v = if dd < 0 { if p.is_zero() { p.clone() } else { &p - 1u8 } } else { &p + dd as u32 };
+                    if let Some(v) = fit(&v, bits) {
+                        m.case("root", bits, vec![au(&v), an(d)]);
+                    }
+                }
+            }
+        }
+        if m.time_up() {
+            return;
+        }
+    }
+    if bits <= 257 && !m.is_light() {
+        m.mark_exhaustive(format!("BITS={bits}: every root degree in 0..=BITS+2 (values: MAX, 2^(BITS-1), perfect powers +-1, sampled)"));
+    }
+    // documented slow-convergence example and values whose top 64 bits sit on f64 rounding boundaries
+    if bits == 256 {
+        let v = BigUint::parse_bytes(b"215f07147d573ef203e1f268ab1516d3f294619db820c5dfd0b334e4d06320b7", 16).unwrap();
+        m.case("root", bits, vec![au(&big::limbs(&v, l)), an(196)]);
+    }
+    let mut r = m.stream("c13.random", bits);
+    for i in 0..m.iters(if bits <= 256 { 2500 } else if bits <= 1024 { 700 } else { 150 }) {
+        if i % 64 == 0 && m.time_up() {
+            return;
+        }
+        let v = match r.below(4) {
+            0 => {
+                // 53/54-bit head followed by ones or zeros
+                let mut v = gen::with_bit_len(&mut r, bits, bits);
+                let keep = r.range(52, 55).min(bits);
+                let low = bits - keep;
+                let fill = r.bool();
+                for j in 0..low {
+                    if fill {
+                        v[j / 64] |= 1 << (j % 64);
+                    } else {
+                        v[j / 64] &= !(1 << (j % 64));
+                    }
+                }
+                v
+            }
+            _ => gen::hostile(&mut r, bits),
+        };
+        let d = match r.below(4) {
+            0 => r.range(1, 8),
+            1 => r.range(1, bits + 2),
+            2 => r.range(bits / 2, bits + 2),
+            _ => r.range(2, 70),
+        };
+        m.case("root", bits, vec![au(&v), an(d)]);
+        m.case("log2_10", bits, vec![au(&v)]);
+        m.case("log", bits, vec![au(&v), au(&base(&mut r, bits))]);
+        let b = base(&mut r, bits);
+        let e = if r.bool() { gen::small(r.below(bits + 3) as u64, bits) } else { gen::hostile(&mut r, bits) };
+        m.case("pow", bits, vec![au(&b), au(&e)]);
+    }
+}
+
+fn main() {
+    let mut m = Mon::new("C13", dispatch);
+    m.use_hooks = true;
+    if !m.replay_if_requested() {
+        for &bits in WIDTHS {
+            if m.width_enabled(bits) {
+                workload(&mut m, bits);
+            }
+        }
+    }
+    m.finish();
+    let _ = BigUint::zero();
+}
